@@ -14,6 +14,17 @@ REPLAY_DIR = os.path.join(EVIDENCE_DIR, 'replay')
 KNOWN = os.path.join(VERIF, 'known_findings.json')
 
 
+def _frontend_errors():
+    from .cxx_frontend import FrontendError
+    from .py_frontend import PyFrontendError
+    from .cfg import CfgError
+    return (FrontendError, PyFrontendError, CfgError)
+
+
+class _Lazy(tuple):
+    pass
+
+
 class AnalysisError(Exception):
     """The analysis cannot give a verdict (front end failed, anchor vanished, floor missed,
     unknown idiom on a rule-relevant path).  Exit 2, never a VIOLATION."""
@@ -164,6 +175,7 @@ def run_property(pid, rules, tier, explanation, declined, configs=None, replay=N
     all_obs = []
     analysed = {}
     assumptions = set()
+    errors = []
     try:
         for cfg in configs:
             ctx = Ctx(tier, cfg)
@@ -171,9 +183,21 @@ def run_property(pid, rules, tier, explanation, declined, configs=None, replay=N
                 info = RULES.get(rid)
                 if info is None:
                     raise AnalysisError('rule %s is not implemented' % rid)
-                if cfg != configs[0] and not info.get('per_config'):
+                if cfg != configs[0] and info.get('uses_cxx') is False:
                     continue
-                ctx.run_rule(rid)
+                before = len(ctx.obs)
+                ncxx = len(ctx._cxx)
+                try:
+                    ctx.run_rule(rid)
+                except AnalysisError as e:
+                    # a rule that cannot give a verdict does not hide what the others found
+                    errors.append('%s (configuration %s)' % (e, cfg))
+                    del ctx.obs[before:]
+                except _frontend_errors() as e:
+                    errors.append('%s: %s (configuration %s)' % (rid, e, cfg))
+                    del ctx.obs[before:]
+                if 'uses_cxx' not in info:
+                    info['uses_cxx'] = bool(ctx._cxx)
             all_obs.extend(ctx.obs)
             for k, v in ctx.analysed.items():
                 if isinstance(v, dict):
@@ -285,6 +309,8 @@ def run_property(pid, rules, tier, explanation, declined, configs=None, replay=N
     print('%s tier=%s rules=%s obligations=%d discharged=%d known-findings=%d new-violations=%d '
           'wall=%.1fs' % (pid, tier, ','.join(rules), len(counted), len(discharged), len(kf),
                           len(new), time.time() - t0))
+    for e in errors:
+        print('ANALYSIS-ERROR property=%s %s' % (pid, e))
     if replay is not None:
         try:
             want = json.load(open(replay)).get('key')
@@ -298,4 +324,6 @@ def run_property(pid, rules, tier, explanation, declined, configs=None, replay=N
             return 1
         print('REPLAY: violation %s no longer present' % want)
         return 0
-    return 1 if new else 0
+    if new:
+        return 1
+    return 2 if errors else 0
